@@ -97,7 +97,9 @@ class PaneBase:
     def __class_getitem__(cls, params: t.Union[type, t.Tuple[type, ...]]):
         if not isinstance(params, tuple):
             params = (params,)
-        return _make_subclass(cls, params)
+        # `==` alone is too coarse a cache key (`Union[int, float] == Union[float, int]`,
+        # `Literal[0, False] == Literal[False, 0]`): also key on the parameters as written
+        return _make_subclass(cls, params, repr(params))
 
     def __repr__(self) -> str:
         inside = ", ".join(
@@ -411,7 +413,7 @@ class PaneOptions:
 
 
 @functools.lru_cache(maxsize=256)
-def _make_subclass(cls: t.Any, params: t.Tuple[t.Any, ...]) -> type:
+def _make_subclass(cls: t.Any, params: t.Tuple[t.Any, ...], _written: str = '') -> type:
     sup: t.Any = super(PaneBase, cls)
     if not hasattr(sup, '__class_getitem__'):
         raise TypeError(f"type '{cls}' is not subscriptable")
